@@ -129,6 +129,8 @@ def ceval(e, ids, mem):
         return int(a[0] == a[1])
     if op == 'FLAG_SIGN_SUB':
         return ((a[0] - a[1]) >> (s - 1)) & 1
+    if op == 'FLAG_SIGN_ADD':
+        return ((a[0] + a[1]) >> (s - 1)) & 1
     if op == 'FLAG_ADD_CF':
         return int(a[0] + a[1] > mask(s))
     if op == 'FLAG_SUB_CF':
